@@ -155,7 +155,7 @@ def reference_cfg(ctx, src):
     sub_out["__main__"] = {"entry": 0, "blocks": sorted(main),
                            "exits": sorted(b for b in main if not succ[b] or ins[blocks[b][-1]]["flow"] == "retsub"),
                            "retsubs": sorted(b for b in main if ins[blocks[b][-1]]["flow"] == "retsub"), "callers": [], "return_points": []}
-    return {"blocks": out_blocks, "main": sorted(main), "subs": sub_out,
+    return {"last_line": ins[-1]["line"] if ins else 0, "blocks": out_blocks, "main": sorted(main), "subs": sub_out,
             "retained_lines": sorted(l for b in retained for l in out_blocks[b]["lines"])}
 
 
@@ -505,14 +505,14 @@ def rule_global_edges_inverse(ctx, rep):
     rule = "T-GLOBAL"
     rep.rule(rule, "next_blocks_global and prev_blocks_global are mutually inverse on abstract call/return neighbourhoods; leaf_block_global = "
                    "no successors and neither callsub nor retsub")
-    from .generic_tables import _callgraph
+    from .generic_tables import _callgraph, _loopgraph
     w = ctx.world
     A = "tealer.utils.analyses"
     nb, pb, lf = w.func(A, "next_blocks_global"), w.func(A, "prev_blocks_global"), w.func(A, "leaf_block_global")
     where = ctx.path(A)
     for name, kw in (("call/return", {}), ("return point is also a jump target", {"extra_jump": True}), ("two call sites", {"two_callers": True}),
-                     ("callee never returns", {"callee_returns": False})):
-        g, fn = _callgraph(ctx, **kw)
+                     ("callee never returns", {"callee_returns": False}), ("loops back to the entry of a subroutine and of the program", {})):
+        g, fn = _loopgraph(ctx) if name.startswith("loop") else _callgraph(ctx, **kw)
         tag = {id(b): n for n, b in g.blocks.items()}
         nxt = {n: sorted(tag[id(x)] for x in w.call(nb, fn, b)) for n, b in g.blocks.items()}
         prv = {n: sorted(tag[id(x)] for x in w.call(pb, fn, b)) for n, b in g.blocks.items()}
@@ -522,6 +522,8 @@ def rule_global_edges_inverse(ctx, rep):
         leaves = {n: w.call(lf, b) for n, b in g.blocks.items()}
         want = {n: (not w.getattr(b, "next")) and not w.getattr(b, "is_callsub_block") and not w.getattr(b, "is_retsub_block") for n, b in g.blocks.items()}
         rep.check(leaves == want, rule, f"{name}: leaf blocks", where, leaves, want)
+        if name.startswith("loop"):
+            continue
         # expected successor kinds
         want_next = {"C": ["F0"], "F1": ["R"] if kw.get("callee_returns", True) and not kw.get("two_callers") else None}
         rep.check(nxt["C"] == ["F0"], rule, f"{name}: callsub -> callee entry", where, nxt["C"], ["F0"])
